@@ -724,8 +724,8 @@ def run(ctx: Ctx) -> None:
                      what=f"sbml.write + sbml.read: {f['symptom']} ({r['cls']}; blame: {f['blame']}): "
                           f"{json.dumps(f['detail'].get('mismatch', f['detail']), default=str)[:200]}",
                      witness=f["witness"], replayed=True, detail=f["detail"])
-    if counts["reproduced"] == 0:
-        raise CheckerError("C08: no case was exported and re-imported successfully - the stand-in explored nothing")
+    if counts["reproduced"] == 0 and counts["failed"] == 0:
+        raise CheckerError("C08: no case was exported and re-imported - the stand-in explored nothing")
     ctx.extra["outcomes"] = counts
     ctx.extra["refused_by_export"] = refused
     ctx.extra["pysbml_unfaithful"] = excluded
@@ -735,10 +735,11 @@ def run(ctx: Ctx) -> None:
     ctx.add_bounded(
         name="C08 sbml.write + sbml.read on enumerated surrogate-free models",
         tool="exhaustive enumeration of exporter tables + random models; libsbml + independent SBML evaluator for blame",
-        bound=("host model with one slot x {16 binary / 5 unary operator shapes, 15 comparison / boolean shapes, 7 conditional "
-               "shapes, 26 math.* + 32 np.* unary calls, 40 other call shapes, 24 constants}; 7 shapes x 6 positions; 14 numeric + "
-               "10 named / computed coefficients; 7 initial-assignment shapes; 26 name classes x 4 roles; 12 argument permutations; "
-               f"20 body shapes; 12 model shapes; {30 if quick else 400} random models; {n_states + 1} states x 2 times"),
+        bound=(f"host model with one slot x {{{len(BINOPS) + 4} binary / {len(UNOPS)} unary operator shapes, {len(COMPARES)} comparison / "
+               f"boolean shapes, {len(IFEXPS)} conditional shapes, {len(MATH_FNS)} math.* + {len(NP_FNS)} np.* unary calls, {len(CALLS2)} other "
+               f"call shapes, {len(CONSTS)} constants}}; 7 shapes x 6 positions; 14 numeric + 10 named / computed coefficients; 7 "
+               f"initial-assignment shapes; {len(NAME_CLASSES)} name classes x 4 roles; 12 argument permutations; 20 body shapes; 12 model "
+               f"shapes; {30 if quick else 400} random models; {n_states + 1} states x 2 times"),
         cases=len(valid), distinct_nontrivial=len({json.dumps(c["model"], sort_keys=True) for c in cases}),
         rule="one case = one model built from function SOURCE TEXT, written with the real sbml.write and read back with the real "
              "sbml.read; distinct by canonical JSON of the model spec; candidate shapes whose original model does not evaluate "
